@@ -54,6 +54,12 @@ AsSchema(v) ==
     [] OTHER -> Sch("BOTTOM", v.vk, 0, <<>>)
 AsContent(v) == IF v.vk = "content" THEN v.c ELSE Content(<<AsSchema(v)>>, "", "", <<>>)
 AsRanges(v) == IF v.vk = "ranges" THEN v.cs ELSE <<AsContent(v)>>
+\* the ranges of a transfer are a map keyed by (status, media type) as written: of two contents with the same key the later
+\* one stands (the language's rule for `::`, like a later property of the same name in `&`)
+RECURSIVE LastWins(_, _)
+LastWins(cs, i) ==
+  IF i > Len(cs) THEN <<>>
+  ELSE (IF \E j \in (i + 1)..Len(cs) : cs[j].status = cs[i].status /\ cs[j].media = cs[i].media THEN <<>> ELSE <<cs[i]>>) \o LastWins(cs, i + 1)
 AsUri(v) == LET w == Und(v) IN IF w.vk = "rel" THEN w.u ELSE IF w.vk = "uri" THEN w ELSE VUri(<<[k |-> "lit", n |-> "BOTTOM", s |-> Cut]>>, <<>>)
 AsProps(v) == LET w == Und(v) IN IF w.vk = "schema" /\ w.s.t = "object" THEN w.s.kids ELSE <<>>
 
@@ -124,7 +130,7 @@ D(prog, tables, m, p, env, d, h) ==
          IN VXfer([methods |-> nd.s,
                    params |-> IF hasP THEN AsProps(sub(1, d)) ELSE <<>>,
                    domain |-> IF hasD THEN <<AsContent(sub(di, d))>> ELSE <<>>,
-                   ranges |-> AsRanges(sub(Len(nd.a), d))])
+                   ranges |-> LastWins(AsRanges(sub(Len(nd.a), d)), 1)])
     [] nd.k = "rel" ->
          LET u == AsUri(sub(1, d)) IN
          VRel(u, [j \in 1..(Len(nd.a) - 1) |-> LET v == sub(j + 1, d) IN IF v.vk = "xfer" THEN v.x ELSE
